@@ -237,7 +237,7 @@ class Proxy(threading.Thread):
             pass
 
 
-CERT_REQS = ["unset", "none", "required", "optional"]
+CERT_REQS = ["unset", "none", "required", "optional", "None-value"]
 CHECK_HOST = ["unset", False, True]
 TRUST = ["none", "ca_certs=A", "ca_certs=B", "ca_cert_path=A", "env-file=A", "env-dir=A", "context(A)", "SSL_CERT_FILE=A", "ca_certs=B+env-file=A", "ca_cert_path=B+env-dir=A"]
 SNI = ["unset", "localhost", "other.test", "127.0.0.1"]
@@ -316,6 +316,8 @@ def run(res, tier, seed, shard, nshards):
                         essential.append(("unset", "unset", "ca_certs=A", "unset", cert, route, "localhost", sv))
             for cert in CERTS:
                 for route in ROUTE:
+                    essential.append(("None-value", "unset", "ca_certs=A", "unset", cert, route, "localhost", "unset"))
+                    essential.append(("None-value", "unset", "none", "unset", cert, route, "127.0.0.1", "unset"))
                     essential.append(("optional", "unset", "ca_certs=A", "unset", cert, route, "localhost", "unset"))
                     essential.append(("optional", False, "none", "unset", cert, route, "localhost", "unset"))
             r2 = random.Random(seed)
@@ -359,6 +361,9 @@ def tls_case(res, W, P, servers, proxy, cert_reqs, check_host, trust, sni, cert,
         sslopt["cert_reqs"] = ssl.CERT_NONE
     elif cert_reqs == "required":
         sslopt["cert_reqs"] = ssl.CERT_REQUIRED
+    elif cert_reqs == "None-value":
+        # the key is present with the value None (a dict built from optional configuration): never a way to switch verification off
+        sslopt["cert_reqs"] = None
     elif cert_reqs == "optional":
         # for a client CERT_OPTIONAL means what CERT_REQUIRED means (the server's certificate is validated): not a documented relaxation
         sslopt["cert_reqs"] = ssl.CERT_OPTIONAL
@@ -454,6 +459,14 @@ def tls_case(res, W, P, servers, proxy, cert_reqs, check_host, trust, sni, cert,
         return
     issuer = cert.split("-")[1]
     why = []
+    if cert_reqs == "None-value":
+        # only the reject direction is judged (the unchanged code refuses this sslopt outright, before any handshake)
+        exp_strict, _, _, _ = reference("required", check_host, trust, sni, cert, urlhost)
+        res.count("cert_reqs_None_value_cases")
+        if exc is None and not exp_strict:
+            bad("unauthenticated-peer-accepted", "connect() succeeded with sslopt cert_reqs=None although the certificate does not verify", which="chain",
+                default_options=False)
+        return
     if exp:
         if exc is not None:
             bad("valid-peer-rejected", f"{type(exc).__name__}: {str(exc)[:160]}", exc_type=type(exc).__name__)
